@@ -25,13 +25,18 @@ func implPass(raw json.RawMessage) (any, error) {
 	}
 	res, err := w.Schedule()
 	if err != nil {
-		return world.Outcome{Err: err.Error()}, nil
+		return world.Outcome{Err: errClass(err), Faults: w.FiredFaults(), ErrorLogs: w.ErrorLogs()}, nil
 	}
-	return world.Extract(res), nil
+	out := world.Extract(res)
+	out.Faults, out.ErrorLogs = w.FiredFaults(), w.ErrorLogs()
+	return out, nil
 }
 
 var passOpts = world.GenOpts{PreferOnSpreadKey: 0.35, PodEventsFirst: 0.3, InterPod: 0.75, NodeAffinity: 0.15, Existing: 0.6, Limits: 0.0, MaxPods: 6,
-	Namespaces: 0.3, MatchLabelKeys: 0.25}
+	Namespaces: 0.3, MatchLabelKeys: 0.25, DefaultSpread: 0.12, ListFaults: 0.08}
+
+// errClass canonicalises a pass error (messages carry object names and injected-fault texts: keep them, they are deterministic)
+func errClass(err error) string { return err.Error() }
 
 func constraintLabels(s *world.Scenario) []string {
 	var l []string
@@ -86,6 +91,35 @@ func constraintLabels(s *world.Scenario) []string {
 	if len(s.Namespaces) > 0 {
 		add("several-namespaces")
 	}
+	if len(s.DefaultSpreads) > 0 {
+		add("cluster-default-spread")
+		for _, d := range s.DefaultSpreads {
+			if d.DoNotSchedule {
+				add("cluster-default-spread-DoNotSchedule-" + shortKey(d.TopologyKey))
+			}
+		}
+		canary := false
+		for _, p := range s.Pods {
+			if p.Labels["track"] == "canary" && p.Owner != "" {
+				canary = true
+			}
+		}
+		if canary {
+			add("replicaset-pods-selected-by-different-services")
+		}
+	}
+	for _, f := range s.ListFaults {
+		add("list-fault-" + f.Kind)
+	}
+	for _, n := range s.Nodes {
+		for _, p := range n.Pods {
+			for _, a := range p.Affinity {
+				if a.Anti && a.Required && a.NamespaceSelector != nil {
+					add("running-pod-anti-affinity-namespaceSelector")
+				}
+			}
+		}
+	}
 	return l
 }
 
@@ -105,11 +139,11 @@ func Ops() []*core.Op {
 	return []*core.Op{
 		{
 			Name: "c02.pass",
-			Doc:  "whole real Provisioner.Schedule passes on batches mixing required/preferred pod affinity, anti-affinity and topology spread (minDomains, inclusion policies) over existing pod distributions and 1-3 zones, pods in several namespaces with namespaces / namespaceSelector on the terms, rollouts with matchLabelKeys (two revisions, selector merged by the API server or not); end state judged by the inter-pod specification",
-			N:    func(t core.Tier) int { return map[core.Tier]int{core.Quick: 800, core.Thorough: 10000}[t] },
+			Doc:  "whole real Provisioner.Schedule passes on batches mixing required/preferred pod affinity, anti-affinity and topology spread (minDomains, inclusion policies) over existing pod distributions and 1-3 zones, pods in several namespaces with namespaces / namespaceSelector on the terms, rollouts with matchLabelKeys (two revisions, selector merged by the API server or not), cluster-default spread constraints (--scheduler-config) on ReplicaSet pods behind Services (selector deduced per pod), one List call of the pass failing once (mostly the Namespace list behind a running pod's anti-affinity namespaceSelector); end state judged by the inter-pod specification",
+			N:    func(t core.Tier) int { return map[core.Tier]int{core.Quick: 1500, core.Thorough: 12000}[t] },
 			Gen:  func(r *rand.Rand, t core.Tier) any { return world.GenScenario(r, passOpts) },
 			Impl: implPass,
-			Rule: "non-trivial = at least two pods were placed and at least one placed pod carries a required inter-pod constraint or DoNotSchedule spread",
+			Rule: "non-trivial = at least two pods were placed and at least one placed pod carries a required inter-pod constraint or DoNotSchedule spread (its own or a cluster default)",
 			Nontrivial: func(raw json.RawMessage, impl any) bool {
 				var s world.Scenario
 				json.Unmarshal(raw, &s)
@@ -148,6 +182,14 @@ func Ops() []*core.Op {
 					for _, sp := range p.Spreads {
 						if sp.DoNotSchedule {
 							return true
+						}
+					}
+					// governed by a cluster-default DoNotSchedule constraint (no constraints of its own, a controller or Service)
+					if len(p.Spreads) == 0 && (p.Owner != "" || len(s.Services) > 0) {
+						for _, d := range s.DefaultSpreads {
+							if d.DoNotSchedule {
+								return true
+							}
 						}
 					}
 				}
